@@ -244,14 +244,15 @@ func decodePointsCompressed(d *decoder, level int, target []Point) {
 		return
 	}
 	for i := 0; i < numOffCenter; i++ {
-		idx := int(d.readUvarint())
+		idxEncoded := d.readUvarint()
 		if d.err != nil {
 			return
 		}
-		if idx >= len(target) {
-			d.err = fmt.Errorf("off center index = %d, should be < len(target) = %d", idx, len(target))
+		if idxEncoded >= uint64(len(target)) {
+			d.err = fmt.Errorf("off center index = %d, should be < len(target) = %d", idxEncoded, len(target))
 			return
 		}
+		idx := int(idxEncoded)
 		target[idx].X = d.readFloat64()
 		target[idx].Y = d.readFloat64()
 		target[idx].Z = d.readFloat64()
